@@ -225,7 +225,7 @@ func c17OperatorKube(r *Run, c *Case, rng *Rng) {
 		}
 		return c17QueueName(k)
 	}
-	early := rng.Chance(12) // Shutdown() is requested before the first queue exists, the start goes on afterwards
+	early := rng.Chance(20) // Shutdown() is requested during the start-up (before the first queue exists, ...), the start goes on afterwards
 	var hooks []*c17Hook
 	for i := 1; i <= nh; i++ {
 		h := &c17Hook{idx: i, name: fmt.Sprintf("h%d", i)}
@@ -383,26 +383,41 @@ func c17OperatorKube(r *Run, c *Case, rng *Rng) {
 			f.Close()
 		}
 	}
-	if early {
-		// the shutdown request comes while the hooks have just been loaded: no queue exists yet. The start goes on
-		// (main queue, hook queues, consumer): every queue must be born stopped.
-		done := make(chan struct{})
-		go func() { op.Shutdown(); close(done) }()
-		select {
-		case <-done:
-		case <-time.After(shell_operator.WaitQueuesTimeout + 20*time.Second):
-			c.Oracle("shutdownreturns returned=false before=the-first-queue")
-			hangs.Add(1)
-			return
-		}
-		markStop()
-	}
-	op.VerifC03Run(func(q *queue.TaskQueue) {
+	tune := func(q *queue.TaskQueue) {
 		q.WaitLoopCheckInterval = time.Millisecond
 		q.DelayOnQueueIsEmpty = time.Millisecond
 		q.DelayOnRepeat = time.Millisecond
 		q.ExponentialBackoffFn = func(int) time.Duration { return 2 * time.Millisecond }
-	})
+	}
+	if early {
+		// the shutdown request comes during the start-up, between two of its queue-related steps: before the main
+		// queue exists (the set is empty), before the main queue is started, before the hook queues are created,
+		// before the events consumer runs. The start goes on: queues created afterwards must be born stopped,
+		// queues that run already stop as usual.
+		earlyStep := rng.Intn(4)
+		c.Note(fmt.Sprintf("shutdown-during-start-up:before-step-%d", earlyStep))
+		returned := true
+		op.VerifC17RunSteps(tune, func(step int) {
+			if step != earlyStep {
+				return
+			}
+			done := make(chan struct{})
+			go func() { op.Shutdown(); close(done) }()
+			select {
+			case <-done:
+			case <-time.After(shell_operator.WaitQueuesTimeout + 20*time.Second):
+				returned = false
+			}
+			markStop()
+		})
+		if !returned {
+			c.Oracle("shutdownreturns returned=false")
+			hangs.Add(1)
+			return
+		}
+	} else {
+		op.VerifC03Run(tune)
+	}
 	waitFor := func(cond func() bool, d time.Duration) bool {
 		deadline := time.Now().Add(d)
 		for time.Now().Before(deadline) {
@@ -684,7 +699,7 @@ func c17OperatorKube(r *Run, c *Case, rng *Rng) {
 	}
 	c.Nontrivial = true
 	if early {
-		c.Note("kind:whole-operator-shutdown-before-the-first-queue")
+		c.Note("kind:whole-operator-shutdown-during-start-up")
 	} else if midRun {
 		c.Note("kind:whole-operator-cluster-events-shutdown-mid-run")
 	} else {
